@@ -171,7 +171,7 @@ HistPathOK(v) == /\ v # <<>> /\ v \notin {<<"..">>, <<".">>}
 
 (* --delimiter: a single character or a string without regex operators is literal, else a regular expression *)
 (* CODE-DERIVED; atoms that contain a regex operator, and those a regex cannot start with (then it is literal again) *)
-RegexSpecial == {"[", "]", "(", ")", "{", "}", "*", "+", "^", "$", "|", ".", "..", "+m", "+s", "+e", "+i", "1.5"}
+RegexSpecial == {"[", "]", "(", ")", "{", "}", "*", "+", "^", "$", "$a", "|", ".", "..", "+m", "+s", "+e", "+i", "1.5"}
 NoRegexStart == {"+", "*", "+m", "+s", "+e", "+i"}
 Delimiter(v) == IF Len(Str(v)) = 1 \/ (\A i \in 1..Len(v) : v[i] \notin RegexSpecial) \/ v[1] \in NoRegexStart
                 THEN "str:" \o Str(v)
